@@ -89,12 +89,15 @@ def main(argv=None):
     limit = int(os.environ.get("VERIF_TIMEOUT", "900" if tier == "quick" else "7200"))
     faulthandler.dump_traceback_later(limit, exit=False)
 
-    def _alarm(*_):
+    def _alarm():
         print(f"INFRA-ERROR property={pid}: time limit of {limit}s exceeded", flush=True)
         os._exit(2)
 
-    signal.signal(signal.SIGALRM, _alarm)
-    signal.alarm(limit + 5)
+    import threading
+
+    wd = threading.Timer(limit + 5, _alarm)
+    wd.daemon = True
+    wd.start()
     try:
         rc = run(pid, tier, args.seed, args.replay, t0)
     except C.Infra as e:
